@@ -510,6 +510,10 @@ HLconvert(int32 aid, int32 block_length, int32 number_blocks)
     access_rec->special_func = &linked_funcs;
     access_rec->special      = SPECIAL_LINKED;
     access_rec->appendable   = FALSE; /* start data as non-appendable */
+    /* the element has a length now, whoever gave it: a "new" flag that went stale (HIrefresh_new does not look
+       at special records) would make every Hread through this id fail and let Hsetlength re-target the
+       DD of the description record */
+    access_rec->new_elem     = FALSE;
 
     /* check whether we should seek out to the proper position */
     if (old_posn > 0) {
